@@ -244,7 +244,7 @@ def step (st : St) (line : String) : IO St := do
     let ex := (kv rest "extrap") == some "1"
     let ord (e : List Float) : Float := Float.log2 ((e.getD 1 1.0) / (e.getD 2 1.0))
     let o2 := ord e2; let oi := ord ei
-    let cfg := s!"geometry={(kv rest "geometry").getD ""} problem={(kv rest "problem").getD ""} alpha={(kv rest "alpha").getD ""} beta={(kv rest "beta").getD ""} dirbc={(kv rest "dirbc").getD ""} strat={(kv rest "strat").getD ""} extrap={ex} base_exp={(kv rest "base_exp").getD ""}"
+    let cfg := s!"geometry={(kv rest "geometry").getD ""} problem={(kv rest "problem").getD ""} alpha={(kv rest "alpha").getD ""} beta={(kv rest "beta").getD ""} dirbc={(kv rest "dirbc").getD ""} strat={(kv rest "strat").getD ""} cachegeo={(kv rest "cachegeo").getD "1"} cachecoef={(kv rest "cachecoef").getD "1"} extrap={ex} base_exp={(kv rest "base_exp").getD ""}"
     IO.println s!"SIG order {cfg}"
     let ok := if ex then o2 ≥ 2.8 ∧ oi ≥ 2.2 else o2 ≥ 1.7 ∧ oi ≥ 1.6
     let stats ← check st.stats true fun _ => ""
